@@ -311,7 +311,7 @@ def run(ctx: Ctx):
     # every (l, m) up to l = 6 at every angle pair; thorough: additionally l = 7..10 at a sub-list of the angles
     hi_angles = [a for a in angles if a[0] in ("pole0-negtheta", "polepi", "equator", "theta-negative", "theta>2pi", "near-pole", "random0")]
     # quick: two of the structured pairs are left to the numerical searches (they stay in `angles` for those)
-    coq_angles = [a for a in angles if not (quick and a[0] in ("equator-thetapi", "theta-far"))]
+    coq_angles = [a for a in angles if not (quick and a[0] in ("equator-thetapi", "theta-far", "polepi-bigtheta", "random1", "random2"))]
     passes = [(6, coq_angles, 0)] + ([] if quick else [(Lc, hi_angles, 7)])
     cases, meta = [], []
     for Lp, angs, lmin in passes:
@@ -353,8 +353,9 @@ def run(ctx: Ctx):
                         "goal": cases[0][0][:160] if cases else None})
 
     # ================================================================== 2. derivative routine vs model
-    Ld = 4 if quick else 6
+    Ld = 3 if quick else 6
     dang = [a for a in angles if a[0] in ("pole0", "polepi", "equator", "theta-negative", "near-pole") or (a[0] == "theta>2pi" and not quick)] + angles[-(1 if quick else 2):]
+    dang += [("near-pole-2^-28", 1.25, 2.0 ** -28)]      # just outside the pole band of the routine (|tan phi| < 1e-10)
     dth, dph = [a[1] for a in dang], [a[2] for a in dang]
     D, errD = safe(impl_D, Ld, dth, dph)
     nd = (Ld + 1) ** 2
@@ -665,6 +666,13 @@ def search(ctx: Ctx, gu, mp, pend: Pending, angles):
     Ld = 12 if quick else 30
     dsub = [a for a in angles if a[0] in ("pole0", "polepi", "equator", "theta-negative", "theta>2pi", "theta-far", "near-pole")] + angles[-3:]
     dsub += [("near-pole-pi", -1.25, pi - 0.0078125), ("near-pole-tiny", 0.5, 2.0 ** -20)]
+    # "away from the poles" means: not inside the routine's documented pole band |tan(phi)| < 1e-10.  Polar angles at graded tiny
+    # distances from BOTH poles, down to just outside that band, and periodic images of them (negative, beyond pi, near 2 pi): the
+    # |m| cot(phi) Y term is the whole derivative for |m| = 1 there, so a widened band or a lost cotangent shows as an O(1) error.
+    for k, d in enumerate((1e-3, 1e-5, 1e-7, 2.0 ** -28, 3e-9, 2.5e-10)):
+        tk = (0.75, -2.0, 4.0, 1.25, 8.5, -0.5)[k]
+        dsub += [(f"pole0+{d:g}", tk, d), (f"polepi-{d:g}", -tk, pi - d)]
+    dsub += [("pole0-3e-9", 1.0, -3e-9), ("polepi+5e-9", 2.0, pi + 5e-9), ("pole2pi-1e-7", -1.5, 2 * pi - 1e-7), ("pole-pi+1e-8", 0.5, -pi + 1e-8)]
     th, ph = [a[1] for a in dsub], [a[2] for a in dsub]
     D = run2(gu.generate_derivative_real_spherical_harmonics, Ld, th, ph)
     if isinstance(D, str) or D.shape != (2, (Ld + 1) ** 2, len(dsub)):
@@ -1004,7 +1012,8 @@ def outside_principal_range(ctx: Ctx, gu, mp, pend):
     the two implementations and the derivative routine are probed at fixed inputs; each disagreement is reported with a stable key
     (listed in known_findings.jsonl when it is a defect of the unchanged code)."""
     t = 1.0
-    for p in (-0.5, 4.0):
+    # negative with sin < 0, beyond pi, negative with sin > 0, beyond 2 pi, below -2 pi
+    for p in (-0.5, 4.0, -4.0, 7.5, -7.0):
         tm, pm = mp.mpf(t), mp.mpf(p)
         try:
             A = np.asarray(gu.generate_real_spherical_harmonics(3, np.array([t]), np.array([p])), dtype=float)[:, 0]
